@@ -284,3 +284,30 @@ fn sketch_track_roundtrip_sparse_id() {
         Err(_) => assert!(false, "a track written by write_sketch_track must read back"),
     }
 }
+
+// ---- long lists: N = 8 * size + 1 hashes (one more than the filter has bits).  All hashes but one are
+// CONCRETE (a fixed arithmetic progression), the remaining one - first or last - is fully symbolic: the loop
+// runs N times on mostly constant data, which CBMC handles in seconds, and the obligation "that hash is
+// reported as possibly present" catches anything that depends on the POSITION of a token in a long list
+// (truncation, saturation shortcuts, wrap-around) - what the short fully symbolic lists cannot see.
+macro_rules! filter_long_list {
+    ($name:ident, $size:expr, $n:expr, $pos:expr) => {
+        #[kani::proof]
+        #[kani::unwind(132)]
+        fn $name() {
+            let mut hs = [0u64; $n];
+            let mut i = 0;
+            while i < $n {
+                hs[i] = (i as u64).wrapping_mul(0x9E37_79B9_7F4A_7C15).rotate_left(17);
+                i += 1;
+            }
+            let h: u64 = kani::any();
+            hs[$pos] = h;
+            let f = build_term_filter(&hs, $size);
+            assert!(f.len() == $size);
+            assert!(term_filter_maybe_contains(&f, h), "no false negative at this position of a long list");
+        }
+    };
+}
+filter_long_list!(filter_long_list_last_16, 16, 129, 128);
+filter_long_list!(filter_long_list_first_16, 16, 129, 0);
